@@ -58,7 +58,8 @@ NoDupSeq(s) == \A j, k \in 1..Len(s) : j # k => s[j] # s[k]
 EndOk(f) ==
   CASE f.k = "ui" -> Len(f.kids) >= 2 /\ f.kids[1] = "class" /\ f.kids[2] = "widget" /\ Count(f.kids, "class") = 1 /\ Count(f.kids, "widget") = 1
                      /\ Count(f.kids, "customwidgets") <= 1
-    [] f.k \in {"prop", "layoutitem", "colorrole", "brush"} -> Len(f.kids) = 1       \* exactly one value element / one content
+    [] f.k \in {"prop", "layoutitem", "colorrole"} -> Len(f.kids) = 1       \* exactly one value element / one content
+    [] f.k = "brush" -> Len(f.kids) <= 1      \* uic reads the colour of a brush only if there is one (a style alone is a valid brush)
     [] f.k = "color" -> Count(f.kids, "red") = 1 /\ Count(f.kids, "green") = 1 /\ Count(f.kids, "blue") = 1 /\ Len(f.kids) = 3
     [] f.k \in {"rect", "size", "font", "sizepolicy", "iconset", "palette"} -> NoDupSeq(f.kids)
     [] f.k = "customwidgets" -> Len(f.kids) >= 1
